@@ -1594,7 +1594,6 @@ Proof.
     specialize (RG c IN). cbn in RG. lia.
   - pose proof (inv_nodup w I') as N. rewrite RE in N. exact N.
 Qed.
-Print Assumptions worklist_establishes_tr_block.
 
 (* ---------- C03: the case table built for a switch implements the selection of the source semantics ---------- *)
 Theorem switch_table_selects cases ret sid st el :
